@@ -54,7 +54,22 @@ class Canon:
                 lv = n.get("loopvar")
                 if lv:
                     self.loopvars[lv["id"]] = ("each", n.get("range"), None, n)
+        self.escaped = set()      # variables whose value can change without a syntactic assignment to them
+        for p_ in fn.o["params"]:
+            if p_.get("ref") and not p_.get("constref"):
+                self.escaped.add(p_["id"])
         if uniform:
+            for n in walk(fn.body):
+                if n.get("k") == "Var" and n.get("ref"):
+                    self.escaped.add(n["id"])
+                if n.get("k") == "UnaryOperator" and n.get("op") == "&":
+                    vid = A.declref_id(strip(n["c"][0], casts=True))
+                    if vid is not None:
+                        self.escaped.add(vid)
+                if n.get("k") == "CXXMemberCallExpr" and not (n.get("callee") or {}).get("const"):
+                    vid = A.declref_id(A.call_object(n))
+                    if vid is not None:
+                        self.escaped.add(vid)
             # a local handed to a callee by mutable reference / pointer is written by that call
             for n in walk(fn.body):
                 if n.get("k") in ("CallExpr", "CXXMemberCallExpr") and n.get("callee"):
@@ -64,6 +79,7 @@ class Canon:
                             vid = A.declref_id(strip(a, casts=True))
                             if vid is not None:
                                 written.add((vid, id(n)))
+                                self.escaped.add(vid)
         wcount = {}
         for vid, nid in written:
             if nid in inc_nodes and vid in self.loopvars:
